@@ -5,13 +5,14 @@ from decimal import Decimal
 import vf
 
 
-def cfg(maxtx=3, shape=0, extra=False):
-    return ("CONSTANTS MaxTx = %d Shape = %d Extra = %s\nINIT Init\nNEXT Next\nINVARIANTS Theorems Emit\nCHECK_DEADLOCK FALSE\n" % (maxtx, shape, "TRUE" if extra else "FALSE"))
+def cfg(maxtx=3, shape=0, extra=False, prices=False):
+    return ("CONSTANTS MaxTx = %d Shape = %d Extra = %s Prices = %s\nINIT Init\nNEXT Next\nINVARIANTS Theorems Emit\nCHECK_DEADLOCK FALSE\n" % (
+        maxtx, shape, "TRUE" if extra else "FALSE", "TRUE" if prices else "FALSE"))
 
 
-def gen(run, num, maxtx=3, shape=0, workers=8, timeout=2400, extra=False):
+def gen(run, num, maxtx=3, shape=0, workers=8, timeout=2400, extra=False, prices=False):
     """num workspaces in total (TLC's num is per worker)."""
-    js = run.tlc_simulate_many("WorkspaceFiles", cfg(maxtx, shape, extra), num, 2, procs=workers, timeout=timeout)
+    js = run.tlc_simulate_many("WorkspaceFiles", cfg(maxtx, shape, extra, prices), num, 2, procs=workers, timeout=timeout)
     seen = set()
     out = []
     for c in js:
